@@ -371,7 +371,10 @@ Next ==
                      \/ L(EndCtx(q), [Lab("EndCtx") EXCEPT !.q = q, !.r = IF rq[q].st \in {"granted", "failed", "done"} THEN 0 ELSE 1])
                      \/ L(FinPost(q), [Lab("FinPost") EXCEPT !.q = q])
   \/ L(PRecv, Lab("PRecv")) \/ L(PIgnoreUnloaded, Lab("PIgnoreUnloaded")) \/ L(PDecide, Lab("PDecide"))
-  \/ L(PNeedsReload, Lab("PNeedsReload")) \/ L(PUse, Lab("PUse")) \/ L(PFit, Lab("PFit")) \/ L(PUpdFree, Lab("PUpdFree"))
+  \* m = "pingfail": the runner was alive and its options matched, so it is the health check that sent the loop to "expire"
+  \/ L(PNeedsReload, [Lab("PNeedsReload") EXCEPT !.m = IF ppc' = "expire" /\ run[pvictim].alive /\ run[pvictim].opt = OptOf[preq]
+                                                        THEN "pingfail" ELSE None])
+  \/ L(PUse, Lab("PUse")) \/ L(PFit, Lab("PFit")) \/ L(PUpdFree, Lab("PUpdFree"))
   \/ L(PLoad, Lab("PLoad")) \/ L(PVictim, Lab("PVictim")) \/ L(PExpire, Lab("PExpire")) \/ L(PWait, Lab("PWait"))
   \/ \E r \in RunnerId : \/ L(LoadOk(r), [Lab("LoadOk") EXCEPT !.r = r])
                           \/ L(LoadFail(r), [Lab("LoadFail") EXCEPT !.r = r])
